@@ -242,13 +242,43 @@ def run(ctx):
 
     # ---------------- (2) regret(): forms and sign agreement
     rule = 'C01.regret-form'
-    f = ctx.fn('lib', 'regret::regret', rule)
+    f = lib.one('regret::regret')
+    spliced = None
+    if f is None:
+        # renamed with a reshaped result (no alias: the signature changed), hence spliced into its caller by the
+        # normalisation: the one function that calls expected() and the best-response search and builds the
+        # StrategiesInfo from them
+        cands = [g for g in lib.non_test_fns() if '{closure' not in g.name and q.calls_named(g, 'expected') and q.calls_named(g, 'optimal_deviations')
+                 and list(q.struct_sites(g, 'StrategiesInfo'))]
+        if len(cands) == 1:
+            sites = list(q.struct_sites(cands[0], 'StrategiesInfo'))
+            if len(sites) == 1 and set(sites[0][2]) == {'util', 'regrets'}:
+                f = cands[0]
+                spliced = ('agg', 'tuple', [sites[0][2]['util'], sites[0][2]['regrets']], None)
+    if f is None:
+        f = ctx.fn('lib', 'regret::regret', rule)
+    else:
+        ctx.touch(f)
+    ev_name = 'regret'
+    ret_roles = {}
     sign_in_slot = {}
     if f is not None:
-        r = strip_refs(q.ret_expr(f))
+        r = strip_refs(q.ret_expr(f)) if spliced is None else spliced
         comps = [strip_refs(x) for x in r[2]] if r[0] == 'agg' and (r[1] == 'tuple' or r[1].startswith('adt:')) else []
         exp_calls = [x for x in comps if q.is_call(x, 'expected')]
         exp_call = exp_calls[0] if len(exp_calls) == 1 else None
+        # which component of the result is what (by position, and by field name for a named result type)
+        fnames = []
+        if r[0] == 'agg' and r[1].startswith('adt:'):
+            adt = lib.adts.get(r[1][4:].split('<')[0]) or lib.adts.get(r[1][4:])
+            if adt and len(adt) >= 1 and len(adt[0].get('fields', [])) == len(comps):
+                fnames = list(adt[0]['fields'])
+        for i_, x in enumerate(comps):
+            role = 'util' if x is exp_call else 'regrets' if (x[0] == 'agg' and x[1] == 'array' and len(x[2]) == 2) else None
+            if role:
+                ret_roles[str(i_)] = role
+                if fnames:
+                    ret_roles[fnames[i_]] = role
         ctx.verdict(exp_call is not None, rule, rule + ':utility-is-expected', 'the reported utility is the value of expected()', f.where(0), 'components %s' % [facts.show(x)[:30] for x in comps])
         arrs = [x for x in comps if x[0] == 'agg' and x[1] == 'array' and len(x[2]) == 2]
         if exp_call is not None and len(comps) == 2 and len(arrs) == 1:
@@ -320,8 +350,11 @@ def run(ctx):
         ctx.verdict(term_sign == {'true': 1.0, 'false': -1.0}, rule, rule + ':terminal-contribution', 'a terminal contributes +payoff*reach to player one\'s continuation value and -payoff*reach to player two\'s', g.where(0), 'signs: %s' % term_sign,
                     breaks='best-response values are those of the wrong player')
         agree = bool(sign_in_slot) and all(term_sign.get(inst) == -s for inst, s in sign_in_slot.values())
-        ctx.verdict(agree and len(sign_in_slot) == 2, rule, rule + ':slot-vs-search', 'in each slot the sign of `expected` is opposite to the sign of terminal payoffs in that player\'s search (both values are in the same player\'s units)', g.where(0),
-                    'slots: %s, search: %s' % (sign_in_slot, term_sign), breaks='regret = BR - current value is computed with mismatched units on any game with non-zero payoffs')
+        if not sign_in_slot and f is None:
+            ctx.anchor_lost(rule, 'regret(): slots to compare the searches with')
+        else:
+          ctx.verdict(agree and len(sign_in_slot) == 2, rule, rule + ':slot-vs-search', 'in each slot the sign of `expected` is opposite to the sign of terminal payoffs in that player\'s search (both values are in the same player\'s units)', g.where(0),
+                      'slots: %s, search: %s' % (sign_in_slot, term_sign), breaks='regret = BR - current value is computed with mismatched units on any game with non-zero payoffs')
     h = ctx.fn('lib', 'regret::expected', rule)
     if h is not None:
         ok = False
@@ -485,6 +518,7 @@ def run(ctx):
         rule = 'C01.infoset-value'
         divs = list(e2.f64_divisions(f))
         ok = False
+        undecided = False
         for dv in divs:
             num = strip_refs(dv['num'])
             x = num[2][0] if q.is_call(num, 'unwrap') else num
@@ -499,6 +533,10 @@ def run(ctx):
                 if q.is_call(init, 'unwrap') or q.is_call(init, 'expect'):
                     init = strip_refs(init[2][0])
                 red = (q.is_call(init, 'next') and norm(strip_refs(init[2][0])) == norm(strip_refs(x[2][0]))) or (init[0] == 'const' and 'NEG_INFINITY' in str(init))
+            if not red and x[0] == 'var' and q.running_max(f, x[1]) is not None:
+                red = True      # the reduction spelled as a running-maximum loop
+            if not red and (x[0] == 'var' or (x[0] == 'call' and short(x[1]) not in ('reduce', 'fold', 'min', 'sum', 'max_by', 'min_by', 'last', 'next'))):
+                undecided = True
             den = strip_refs(dv['den'])
             tot = q.is_call(den, 'sum')
             ok = bool(red and tot)
@@ -524,7 +562,10 @@ def run(ctx):
                 if lens_ and not all(q.is_num_actions(n_) and q.find_sub(n_, lambda s_: s_[0] == 'call' and any(s_[3] == p_[3] for p_ in popped_info)) is not None for n_ in lens_):
                     ctx.verdict(False, rule, rule + ':payoff-vector-length', 'the per-action payoff vector that is maximised has num_actions(this infoset) entries', f.where(line=dv['line']),
                                 'buffer allocated with length %s and reused' % [facts.show(n_)[:40] for n_ in lens_], breaks='zero padding of a shared buffer competes in the maximum: a negative best-response value is reported as 0')
-        ctx.verdict(ok, rule, rule + ':max-over-actions', 'an infoset\'s value is the f64::max reduction of its per-action payoffs divided by the total reach of its nodes', f.where(line=divs[0]['line']) if divs else f.where(0), 'recognised: %s' % ok,
+        if not ok and undecided:
+            ctx.anchor_lost(rule, 'optimal_deviations: the maximum over the per-action payoffs', 'numerator of the infoset value is a value the rule cannot trace to a reduction')
+        else:
+          ctx.verdict(ok, rule, rule + ':max-over-actions', 'an infoset\'s value is the f64::max reduction of its per-action payoffs divided by the total reach of its nodes', f.where(line=divs[0]['line']) if divs else f.where(0), 'recognised: %s' % ok,
                     breaks='the deviation is not the best action')
         acc = False
         for bi, st, pl, rhs in q.stores(f):
@@ -578,14 +619,22 @@ def run(ctx):
     f = ctx.fn('lib', "Strategies::<'a, I, A>::get_info", rule)
     if f is not None:
         host = f
-        rc = [(bi, t, e) for bi, t, e in q.calls_named(f, 'regret') if e[1].startswith('regret::')]
+        rc = [(bi, t, e) for bi, t, e in q.calls_named(f, ev_name) if e[1].startswith('regret::')]
         if not rc:
             for c in lib.closures_of(f):
-                rc = [(bi, t, q.resolve_captures(lib, c, e)) for bi, t, e in q.calls_named(c, 'regret') if e[1].startswith('regret::')]
+                rc = [(bi, t, q.resolve_captures(lib, c, e)) for bi, t, e in q.calls_named(c, ev_name) if e[1].startswith('regret::')]
                 if rc:
                     host = c
                     break
-        if not rc:
+        if not rc and spliced is not None:
+            # the evaluation function is spliced into get_info: its arguments are checked where they are used (regret-form
+            # slots: own table / other's strategy); what is left is the pairing of each split
+            sps = [(bi, e) for bi, t, e in q.calls_named(f, 'split_by')]
+            pairs = [(q.tags(e[2][0]), q.tags(e[2][1]), 'probs' in facts.show(e[2][0]) and 'player_infosets' in facts.show(e[2][1])) for bi, e in sps]
+            ok = len(pairs) == 2 and all(a == b and len(a) == 1 and c for a, b, c in pairs) and {tuple(a) for a, b, c in pairs} == {(0,), (1,)}
+            ctx.verdict(ok, rule, rule, 'get_info evaluates (tables of player 1, 2) with (probabilities of player 1 split by player 1\'s infosets, same for 2)', f.where(sps[0][0] if sps else 0),
+                        'evaluation spliced into get_info; splits (probs tags, infoset tags, fields ok): %s' % [(sorted(a), sorted(b), c) for a, b, c in pairs], breaks='a player\'s probabilities are interpreted with the other player\'s infoset sizes')
+        elif not rc:
             ctx.anchor_lost(rule, 'get_info: regret::regret call')
         for bi, t, e in rc:
             infos, strats = strip_refs(e[2][2]), strip_refs(e[2][3])
@@ -617,12 +666,14 @@ def run(ctx):
                 while base[0] in ('field', 'cidx'):
                     path.append(base[2])
                     base = strip_refs(base[1])
-                srcs.add(base if q.is_call(base, 'regret') and base[1].startswith('regret::') else ('other', k_))
+                srcs.add(base if q.is_call(base, ev_name) and base[1].startswith('regret::') else ('other', k_))
                 comp[k_] = tuple(reversed(path))
             from_one_call = len(srcs) == 1 and next(iter(srcs))[0] == 'call'
-            if set(vals) == {'util', 'regrets'}:
-                ok = from_one_call and comp['util'] == ('0',) and comp['regrets'] == ('1',)
-                ctx.verdict(ok, rule, rule + ':info-fields', 'StrategiesInfo { util, regrets } are components 0 and 1 of regret()\'s result', f.where(bi), 'components: %s' % comp)
+            if spliced is not None:
+                ctx.ok(rule, rule + ':info-fields', 'StrategiesInfo { util, regrets } are the utility and the regret pair of the one evaluation', f.where(bi), 'the evaluation is spliced into get_info: the fields are its result (forms decided by C01.regret-form)')
+            elif set(vals) == {'util', 'regrets'} and (ret_roles or not from_one_call):
+                ok = from_one_call and len(comp['util']) == 1 and len(comp['regrets']) == 1 and ret_roles.get(comp['util'][0]) == 'util' and ret_roles.get(comp['regrets'][0]) == 'regrets'
+                ctx.verdict(ok, rule, rule + ':info-fields', 'StrategiesInfo { util, regrets } are the utility and the regret pair of the one regret() evaluation', f.where(bi), 'components: %s; result of %s(): %s' % (comp, ev_name, ret_roles))
             elif from_one_call and len(set(comp.values())) == len(comp):
                 ctx.ok(rule, rule + ':info-fields', 'every field of StrategiesInfo is a distinct component of the one regret() evaluation', f.where(bi), 'components: %s' % comp)
                 ctx.anchor_lost(rule, 'get_info: which component of regret() feeds which field', 'reshaped result types: the correspondence is not followed (%s)' % comp)
